@@ -1,6 +1,7 @@
 package main
 
 import (
+	"context"
 	"errors"
 	"fmt"
 	"math/rand"
@@ -16,7 +17,7 @@ import (
 // execFlush: MakeRoot under a scheduler that decides when each concurrent Store call
 // completes and which ones fail.  The observation is the result plus the event trace
 // s (Store starts) / o (ends ok) / e (ends with error) / R, X (MakeRoot returns ok / error).
-func (s *Session) execFlush(slot, rslot int, seed int64, fails map[int]bool) (obs, viol string) {
+func (s *Session) execFlush(slot, rslot int, seed int64, fails map[int]bool, cancelAt int) (obs, viol string) {
 	m := s.Trees[slot]
 	if m == nil {
 		return "bad-slot", ""
@@ -31,7 +32,15 @@ func (s *Session) execFlush(slot, rslot int, seed int64, fails map[int]bool) (ob
 	var waiting []waiter
 	inflight, maxInflight := 0, 0
 	done := false
+	// cancelAt >= 0: the caller's context is cancelled when that Store call starts.  The store
+	// (like the in-memory and file stores) does not look at the context, so every write still
+	// happens or fails as scheduled; what MakeRoot then reports must still be true.
+	ctx, cancel := context.WithCancel(s.ctx)
+	defer cancel()
 	s.Store.Gate = func(n int, name string) error {
+		if n == cancelAt {
+			cancel()
+		}
 		ch := make(chan error, 1)
 		mu.Lock()
 		trace.WriteByte('s')
@@ -77,7 +86,7 @@ func (s *Session) execFlush(slot, rslot int, seed int64, fails map[int]bool) (ob
 		}
 	}()
 	s.Store.ResetTraffic()
-	root, err := m.MakeRoot(s.ctx)
+	root, err := m.MakeRoot(ctx)
 	mu.Lock()
 	if err == nil {
 		trace.WriteByte('R')
@@ -100,7 +109,7 @@ func (s *Session) execFlush(slot, rslot int, seed int64, fails map[int]bool) (ob
 	}
 	s.lastMaxInflight = maxInflight
 	if err != nil {
-		if !strings.Contains(tr, "e") && viol == "" {
+		if !strings.Contains(tr, "e") && viol == "" && cancelAt < 0 {
 			viol = "MakeRoot failed although no write failed: " + err.Error()
 		}
 		// the tree must stay fully usable
@@ -251,6 +260,12 @@ func genFlushCase(r *rand.Rand, cfg Cfg, big bool) Case {
 				fs = append(fs, strconv.Itoa(r.Intn(2+len(live)/2)))
 			}
 			ops = append(ops, fmt.Sprintf("flush 0 %d %d %s", nroot, r.Int63n(1<<30), strings.Join(fs, ",")), "iter 0", "stat 0")
+			nroot++
+		}
+		if r.Intn(3) == 0 {
+			// the caller gives up (cancels its context) while the writes are under way; whatever
+			// MakeRoot answers, a root it returns must be complete and the tree must stay usable
+			ops = append(ops, fmt.Sprintf("flush 0 %d %d - c%d", nroot, r.Int63n(1<<30), r.Intn(2+len(live)/3)), "iter 0", "stat 0")
 			nroot++
 		}
 		ops = append(ops, fmt.Sprintf("flush 0 %d %d -", nroot, r.Int63n(1<<30)), fmt.Sprintf("pshape %d", nroot), "stat 0")
